@@ -8,7 +8,7 @@
    [run (init c t0) ops] is the list of their results, [final (init c t0) ops] the
    state afterwards; [capacity s now] is the code's maxFlight() evaluated at [now]. *)
 From Coq Require Import List ZArith QArith Bool.
-From GZ Require Import Lib.RollingWindow Lib.RollingWindowSpec C02.Model C02.Conc C02.Proofs C02.ProofsHist C02.ProofsConc C02.ProofsConcHot C02.ProofsConcSat C02.ProofsConcAvg C02.Wrap C02.ProofsWrap C02.Check C02.ProofsRef.
+From GZ Require Import Lib.RollingWindow Lib.RollingWindowSpec C02.Model C02.Conc C02.Proofs C02.ProofsHist C02.ProofsConc C02.ProofsConcHot C02.ProofsConcSat C02.ProofsConcAvg C02.Wrap C02.ProofsWrap C02.Check C02.ProofsRef C02.ProofsEpisode C02.World C02.ProofsWorld.
 Import ListNotations.
 Open Scope Z_scope.
 
@@ -332,6 +332,104 @@ Theorem reference_capacity_is_capacity : forall c t0 ops now,
    == capacity (final (init c t0) ops) now)%Q.
 Proof. exact ref_capacity_core. Qed.
 
+(* ------------------------------------------------------------------ *)
+(* 12. "... or was at an Allow within the preceding second WHILE SHEDDING WAS ALREADY IN PROGRESS", with the strong
+      reading of "in progress" (round 4).  A shedding episode starts with a shed request and ends at the first Allow
+      that reads a CPU below the threshold at least coolOffDuration after the last Allow that read it at or above.
+      [episode th (0, false) ops results] computes, from the operations and their results ALONE,
+        (clock reading of the last Allow whose CPU reading was at or above the threshold - 0 if none -, episode open).
+      For every configuration and history this pair is exactly what the shedder keeps in overloadTime /
+      droppedRecently ... *)
+Theorem episode_is_the_cool_off_state : forall c t0 ops,
+  cenabled c = true ->
+  (overloadTime (final (init c t0) ops), droppedRecently (final (init c t0) ops)) =
+  episode (cthreshold c) (0, false) ops (run (init c t0) ops).
+Proof. exact episode_init. Qed.
+
+(*    ... and the k-th operation of any history is shed only if its own CPU reading is at or above the threshold, or an
+      episode is open after the first k operations and the last overloaded Allow is less than coolOffDuration old.
+      A CPU spike that sheds nothing does not open an episode; an episode closed by a cool Allow stays closed until the
+      next shed (Pinned.fast_path_keeps_episode_open_refuted: the variant that skips the bookkeeping when idle;
+      Pinned.mark_dropped_extends_cool_off_refuted: the variant whose sheds extend the cool-off). *)
+Theorem shed_only_if_episode_in_progress : forall c t0 ops k now cpu1 cpu2,
+  cenabled c = true ->
+  nth_error ops k = Some (OAllow now cpu1 cpu2) ->
+  nth_error (run (init c t0) ops) k = Some RShed ->
+  let e := episode (cthreshold c) (0, false) (firstn k ops) (firstn k (run (init c t0) ops)) in
+  cthreshold c <= cpu1 \/ (snd e = true /\ fst e <> 0 /\ now - fst e < coolOffDuration).
+Proof. exact shed_only_episode_core. Qed.
+
+(*    Check.prop_ok judges observed histories with [hot_ref] of the [episode] of the observed verdicts: that clause is
+      the statement above, and the model's own run of any history meets it. *)
+Theorem judge_hot_clause_is_the_episode_statement :
+  (forall th e now c1, hot_ref th e now c1 = true <->
+     (th <= c1 \/ (snd e = true /\ fst e <> 0 /\ now - fst e < coolOffDuration))) /\
+  (forall c t0 ops k now cpu1 cpu2,
+     cenabled c = true -> nth_error ops k = Some (OAllow now cpu1 cpu2) ->
+     nth_error (run (init c t0) ops) k = Some RShed ->
+     hot_ref (cthreshold c)
+             (episode (cthreshold c) (0, false) (firstn k ops) (firstn k (run (init c t0) ops))) now cpu1 = true).
+Proof. split; [exact hot_ref_spec|exact shed_only_hot_ref_core]. Qed.
+
+(*    The hot half is an equivalence: after any history, systemOverloaded() || stillHot() answers true exactly when the
+      CPU reading is at or above the threshold or an episode is open and not yet cooled off. *)
+Theorem hot_iff_overloaded_or_episode_open : forall c t0 pre now cpu1,
+  cenabled c = true ->
+  let e := episode (cthreshold c) (0, false) pre (run (init c t0) pre) in
+  snd (hot_check (final (init c t0) pre) now cpu1) = true <->
+  (cthreshold c <= cpu1 \/ (snd e = true /\ fst e <> 0 /\ now - fst e < coolOffDuration)).
+Proof. exact episode_open_means_hot. Qed.
+
+(* ------------------------------------------------------------------ *)
+(* 13. The ORDER of the configuration calls (C02/World.v; round 4).  A history of the process is any list of
+        XDisable | XNew opts t0 | XGroup opts | XGet g key t0 | XOp k op
+      (load.Disable(), NewAdaptiveShedder, NewShedderGroup, group.GetShedder(key), Allow / Pass / Fail on shedder k).
+      Whatever the order,
+      (a) every shedder lives the single-shedder history of its own operations, started from the initial state of its
+          birth certificate (options, clock, value of load.enabled when it was built): nothing is shared between
+          shedders, and every theorem above applies to each of them; *)
+Theorem every_shedder_lives_its_own_history : forall evs k o t0 en,
+  nth_error (wcerts (wfinal w0 evs)) k = Some (o, t0, en) ->
+  nth_error (wshedders (wfinal w0 evs)) k =
+    Some (final (init (cfg_of o en) t0) (proj k evs (wrun w0 evs))) /\
+  projr k evs (wrun w0 evs) = run (init (cfg_of o en) t0) (proj k evs (wrun w0 evs)).
+Proof. exact world_projection_core. Qed.
+
+(*    (b) the shedder built by the p-th event has the options of that call - for GetShedder: the options its group was
+          given, whenever that was - and is enabled iff no Disable() stands before p: for a group member what counts is
+          the moment of the first GetShedder of its key, NOT the moment of NewShedderGroup
+          (Pinned.group_decides_at_construction_sheds_after_disable_refuted is the variant that decides early); *)
+Theorem birth_certificate : forall evs p k,
+  nth_error (wrun w0 evs) p = Some (YMade k) ->
+  exists o t0, nth_error (wcerts (wfinal w0 evs)) k =
+                 Some (o, t0, negb (existsb is_disable (firstn p evs))) /\
+               made_by evs p o t0.
+Proof. exact birth_certificate_core. Qed.
+
+(*    (c) "a disabled shedder never sheds", over histories that contain the Disable event at ANY position: a shedder
+          built (event p) after a Disable() (event i < p) never sheds, whatever stands before, between and after; *)
+Theorem disabled_never_sheds_wherever_disable_stands : forall evs i p k m o,
+  nth_error evs i = Some XDisable -> (i < p)%nat ->
+  nth_error (wrun w0 evs) p = Some (YMade k) ->
+  nth_error evs m = Some (XOp k o) ->
+  nth_error (wrun w0 evs) m <> Some (YRes RShed).
+Proof. exact disabled_world_core. Qed.
+
+(*    (d) one built while no Disable() has happened is a live adaptive shedder (its history is an ENABLED single-shedder
+          history: it does shed when saturated), even if Disable() is called later, in the middle of its traffic; *)
+Theorem built_before_disable_stays_live : forall evs p k,
+  nth_error (wrun w0 evs) p = Some (YMade k) ->
+  existsb is_disable (firstn p evs) = false ->
+  exists o t0, made_by evs p o t0 /\
+    projr k evs (wrun w0 evs) = run (init (cfg_of o true) t0) (proj k evs (wrun w0 evs)).
+Proof. exact enabled_world_core. Qed.
+
+(*    (e) the certificates depend on the configuration calls alone (Check.world_ok computes them from the configuration
+          calls of an executed scenario and compares them with what each observed history is judged with). *)
+Theorem certificates_ignore_traffic : forall evs,
+  wcerts (wfinal w0 evs) = wcerts (wfinal w0 (filter is_config evs)).
+Proof. exact certs_ignore_traffic. Qed.
+
 Print Assumptions shed_only_if_hot_and_loaded.
 Print Assumptions shed_when_saturated.
 Print Assumptions flying_conservation_wf.
@@ -350,6 +448,15 @@ Print Assumptions every_resolution_contributes_one_sample.
 Print Assumptions window_scale_is_buckets_per_second_over_1000.
 Print Assumptions reference_peak_and_latency_are_the_windows.
 Print Assumptions reference_capacity_is_capacity.
+Print Assumptions episode_is_the_cool_off_state.
+Print Assumptions shed_only_if_episode_in_progress.
+Print Assumptions judge_hot_clause_is_the_episode_statement.
+Print Assumptions hot_iff_overloaded_or_episode_open.
+Print Assumptions every_shedder_lives_its_own_history.
+Print Assumptions birth_certificate.
+Print Assumptions disabled_never_sheds_wherever_disable_stands.
+Print Assumptions built_before_disable_stays_live.
+Print Assumptions certificates_ignore_traffic.
 
 (* ------------------------------------------------------------------ *)
 (* The hypotheses are satisfiable by concrete, non-trivial histories.    *)
@@ -505,4 +612,35 @@ Example ex_sample_order :
   let sched := (repeat 0 10 ++ repeat 1 10 ++ repeat 2 10 ++ [3; 4; 5; 5; 3; 4])%nat in
   sample_log (start cfg1 B calls) sched = [0; 2; 1] /\
   countb has_sampled (snd (crun (start cfg1 B calls) sched)) = 3.
+Proof. vm_compute. split; reflexivity. Qed.
+
+(* an episode that opens, is closed by a cool Allow after the cool-off, and is not re-opened by a spike that sheds
+   nothing: hist1, a shed at +150 ms, the in-flight requests failed, a cool Allow 1.2 s later (closes the episode; the
+   request fails), a spike at +3 s with nothing in flight (let in), a cool Allow 0.5 s after the spike (let in) *)
+Example ex_episode :
+  let ops := hist1 ++ [OAllow (B + 150 * ms) 950 950] ++ map (fun i => OFail i) [10;11;12;13;14;15;16;17;18;19]
+             ++ [OAllow (B + 1350 * ms) 0 0; OFail 41; OAllow (B + 3000 * ms) 1000 1000; OAllow (B + 3500 * ms) 0 0] in
+  let rs := run (init cfg1 B) ops in
+  episode 900 (0, false) (firstn 31 ops) (firstn 31 rs) = (B + 150 * ms, true) /\
+  episode 900 (0, false) (firstn 42 ops) (firstn 42 rs) = (B + 150 * ms, false) /\
+  episode 900 (0, false) ops rs = (B + 3000 * ms, false) /\
+  nth_error rs 30 = Some RShed /\ nth_error rs 43 = Some RAdmit /\ nth_error rs 44 = Some RAdmit.
+Proof. vm_compute. repeat split; reflexivity. Qed.
+
+(* the order of the configuration calls: a group, a member, Disable(), a second member of the same group, a directly built
+   shedder: shedder 0 is live (certificate true), 1 and 2 are not; asking for key 7 again gives shedder 0 *)
+Example ex_world :
+  let g := mkOpts 2000000000 4 500 in
+  let evs := [XGroup g; XGet 0 7 B; XDisable; XGet 0 8 B; XNew (mkOpts 1000000000 10 900) B; XGet 0 7 (B + 5)] in
+  wrun w0 evs = [YNone; YMade 0; YNone; YMade 1; YMade 2; YSame 0] /\
+  wcerts (wfinal w0 evs) = [(g, B, true); (g, B, false); (mkOpts 1000000000 10 900, B, false)].
+Proof. vm_compute. split; reflexivity. Qed.
+
+(* ... the live member, saturated, sheds; the one built after Disable() does not, under the same traffic *)
+Example ex_world_traffic :
+  let g := mkOpts 2000000000 4 500 in
+  let burst k := repeat (XOp k (OAllow (B + 1) 1000 1000)) 20 ++ map (fun i => XOp k (OFail (Z.of_nat i))) (seq 0 10)
+                 ++ [XOp k (OAllow (B + 2) 1000 1000)] in
+  let evs := [XGroup g; XGet 0 7 B; XDisable; XGet 0 8 B] ++ burst 0%nat ++ burst 1%nat in
+  nth_error (wrun w0 evs) 34 = Some (YRes RShed) /\ nth_error (wrun w0 evs) 65 = Some (YRes RAdmit).
 Proof. vm_compute. split; reflexivity. Qed.
